@@ -632,9 +632,175 @@ def check_ir_witnesses(ctx, F):
             got = arms(run_(fn["path"], [st_], ov))
             check(f"`{desc}` over enumerators A..E (arm values, member counts)", got, want, fn)
 
-    for sec in (versions, sizes, file_info, container_type, enumerator, if_statement):
+
+    def definition():
+        # --- member definitions: every attribute on its own field --------------------------------------------------------------
+        fn = F.fn(IR + "container::IrStructMemberDefinition::from_definition")
+        if fn is None:
+            ctx.violate("ir.witness", "anchor|from_definition", "IrStructMemberDefinition::from_definition not found (anchor disappeared)")
+            return
+        SM = "crate::parser::types::struct_member::"
+        TY = "crate::parser::types::ty::Type::"
+        ov = {"::IrType::from_type": lambda a: ("irtype", a[0]), "::IrTags::from_member_tags": lambda a: ("tags",),
+              "ToString::to_string": lambda a: str(a[0]) if isinstance(a[0], int) else a[0]}
+        ty1 = ("variant", TY + "Guid")
+        ty2 = ("variant", TY + "CString")
+        for nm, d, want in (
+            ("`u16 count = 0x07;` used as the size of `items`, 3 bytes before it, used in an if",
+             {"name": "count", "struct_type": ty1, "value": ("Some", ("struct", "crate::parser::types::ContainerValue", {"value": 7, "original_string": "0x07"})),
+              "used_as_size_in": ("Some", "items"), "is_manual_size_field": ("Some", 3), "used_in_if": True, "tags": None},
+             ("count", ty1, ("7", "0x07"), "items", 3, True)),
+            ("`CString name;` plain member",
+             {"name": "name", "struct_type": ty2, "value": "None", "used_as_size_in": "None", "is_manual_size_field": "None", "used_in_if": False, "tags": None},
+             ("name", ty2, None, None, None, False)),
+            ("`Guid g;` used in an if only",
+             {"name": "g", "struct_type": ty1, "value": "None", "used_as_size_in": "None", "is_manual_size_field": ("Some", 0), "used_in_if": False, "tags": None},
+             ("g", ty1, None, None, 0, False)),
+        ):
+            f = fields(run_(fn["path"], [("struct", SM + "StructMemberDefinition", d)], ov))
+            got = None
+            if f:
+                cv = opt(f["constant_value"])
+                cvf = fields(cv) if cv is not None else None
+                dt = f["data_type"]
+                got = (f["name"], dt[1] if isinstance(dt, tuple) and dt[0] == "irtype" else dt, (cvf["value"], cvf["original_string"]) if cvf else None,
+                       opt(f["used_as_size_in"]), opt(f["size_of_fields_before_size"]), f["used_in_if"])
+                got = got[:1] + (_strip(got[1]),) + got[2:]
+                want = want[:1] + (_strip(_fill(want[1])),) + want[2:]
+            check(nm, got, want, fn)
+
+    def _strip(v):
+        return v[1].split("::")[-1] if isinstance(v, tuple) and len(v) > 1 and isinstance(v[1], str) else v
+
+    def types():
+        # --- member types: enum / flag with and without upcast, bool and integer widths -----------------------------------------
+        fn = F.fn(IR + "container::IrType::from_type")
+        if fn is None:
+            ctx.violate("ir.witness", "anchor|from_type", "IrType::from_type not found (anchor disappeared)")
+            return
+        D = "crate::parser::types::definer::"
+        TY = "crate::parser::types::ty::Type::"
+        IT = "crate::parser::types::IntegerType::"
+
+        def definer(name, base, kind):
+            return ("struct", D + "Definer", {"name": name, "definer_ty": ("variant", "wow_message_parser::rust_printer::DefinerType::" + kind), "fields": [],
+                                              "basic_type": ("variant", IT + base), "tags": None, "objects_used_in": [], "file_info": None})
+        ov = {"ToString::to_string": lambda a: a[0]}
+        for nm, ty, want in (
+            ("`Map map;` (enum Map : u8)", ("struct", TY + "Enum", {"e": definer("Map", "U8", "Enum"), "upcast": "None"}), ("Enum", "Map", "U8", False)),
+            ("`(u32)Map map;` (enum Map : u8)", ("struct", TY + "Enum", {"e": definer("Map", "U8", "Enum"), "upcast": ("Some", ("variant", IT + "U32"))}), ("Enum", "Map", "U32", True)),
+            ("`Fl f;` (flag Fl : u16)", ("struct", TY + "Flag", {"e": definer("Fl", "U16", "Flag"), "upcast": "None"}), ("Flag", "Fl", "U16", False)),
+            ("`(u64)Fl f;` (flag Fl : u16)", ("struct", TY + "Flag", {"e": definer("Fl", "U16", "Flag"), "upcast": ("Some", ("variant", IT + "U64"))}), ("Flag", "Fl", "U64", True)),
+            ("`Bool32 b;`", ("variant", TY + "Bool", [("variant", IT + "U32")]), ("Bool", None, "U32", None)),
+            ("`Bool b;`", ("variant", TY + "Bool", [("variant", IT + "U8")]), ("Bool", None, "U8", None)),
+            ("`i16 x;`", ("variant", TY + "Integer", [("variant", IT + "I16")]), ("Integer", None, "I16", None)),
+            ("`u48 x;`", ("variant", TY + "Integer", [("variant", IT + "U48")]), ("Integer", None, "U48", None)),
+        ):
+            r = run_(fn["path"], [ty], ov)
+            got = r
+            if isinstance(r, tuple) and r[0] in ("variant", "struct") and len(r) > 2 and isinstance(r[2], dict):
+                fs = r[2]
+                got = (r[1].split("::")[-1], fs.get("type_name"), _strip(fs.get("integer_type")), fs.get("upcast"))
+            check(nm, got, want, fn)
+
+    def arrays():
+        # --- arrays: element kind, size kind with its count / size-field name, compression ---------------------------------------
+        fn = F.fn(IR + "container::IrArray::from_array")
+        if fn is None:
+            ctx.violate("ir.witness", "anchor|from_array", "IrArray::from_array not found (anchor disappeared)")
+            return
+        A = "crate::parser::types::array::"
+        IT = "crate::parser::types::IntegerType::"
+        SM = "crate::parser::types::struct_member::"
+        ov = {"ToString::to_string": lambda a: str(a[0]) if isinstance(a[0], int) else a[0], "::Into::into": lambda a: a[0], "Into::into": lambda a: a[0], "From::from": lambda a: a[0]}
+        sizedef = ("struct", SM + "StructMemberDefinition", {"name": "amount_of_items", "struct_type": None, "value": "None", "used_as_size_in": "None", "is_manual_size_field": "None",
+                                                              "used_in_if": False, "tags": None})
+        for nm, inner, size, comp, want in (
+            ("`u16[7] x;`", ("variant", A + "ArrayType::Integer", [("variant", IT + "U16")]), ("variant", A + "ArraySize::Fixed", [7]), False, ("Integer", "U16", "Fixed", "7", False)),
+            ("`CString[amount_of_items] x;`", ("variant", A + "ArrayType::CString"), ("variant", A + "ArraySize::Variable", [sizedef]), False, ("CString", None, "Variable", "amount_of_items", False)),
+            ("`PackedGuid[-] x;` compressed", ("variant", A + "ArrayType::PackedGuid"), ("variant", A + "ArraySize::Endless"), True, ("PackedGuid", None, "Endless", None, True)),
+            ("`Guid[2] x;`", ("variant", A + "ArrayType::Guid"), ("variant", A + "ArraySize::Fixed", [2]), False, ("Guid", None, "Fixed", "2", False)),
+            ("`Spell[-] x;`", ("variant", A + "ArrayType::Spell"), ("variant", A + "ArraySize::Endless"), False, ("Spell", None, "Endless", None, False)),
+            ("`u8[-] x;` compressed", ("variant", A + "ArrayType::Integer", [("variant", IT + "U8")]), ("variant", A + "ArraySize::Endless"), True, ("Integer", "U8", "Endless", None, True)),
+        ):
+            f = fields(run_(fn["path"], [("struct", A + "Array", {"inner": inner, "size": size, "compressed": comp})], ov))
+            got = None
+            if f:
+                it, sz = f["inner_type"], f["size"]
+                itf = it[2] if isinstance(it, tuple) and len(it) > 2 and isinstance(it[2], dict) else {}
+                szv = sz[2][0] if isinstance(sz, tuple) and len(sz) > 2 and sz[2] else None
+                got = (_strip(it), _strip(itf.get("integer_type")) if itf.get("integer_type") is not None else None, _strip(sz), szv, f["compressed"])
+            check(nm, got, want, fn)
+
+    def test_values():
+        # --- test vectors: value kinds and their payloads -----------------------------------------------------------------------
+        fn = F.fn(IR + "container::IrTestValue::from_test_value")
+        if fn is None:
+            ctx.violate("ir.witness", "anchor|from_test_value", "IrTestValue::from_test_value not found (anchor disappeared)")
+            return
+        TV = "crate::parser::types::test_case::TestValue::"
+        ov = {"ToString::to_string": lambda a: str(a[0]) if isinstance(a[0], int) else a[0]}
+
+        def cv(i):
+            return ("struct", "crate::parser::types::ContainerValue", {"value": i, "original_string": hex(i)})
+        kinds = (("Number", "Integer"), ("DateTime", "DateTime"), ("Guid", "Guid"), ("IpAddress", "IpAddress"), ("Enum", "Enum"), ("Seconds", "Seconds"), ("Milliseconds", "Milliseconds"),
+                 ("Gold", "Gold"), ("Level", "Level"))
+        for i, (src, dst) in enumerate(kinds):
+            r = run_(fn["path"], [("variant", TV + src, [cv(100 + i)])], ov)
+            got = r
+            if isinstance(r, tuple) and r[0] == "variant" and len(r) > 2 and r[2]:
+                pf = fields(r[2][0])
+                got = (r[1].split("::")[-1], pf["value"], pf["original_string"]) if pf else r
+            check(f"test value {src}({100 + i})", got, (dst, str(100 + i), hex(100 + i)), fn)
+        r = run_(fn["path"], [("variant", TV + "Bool", [True])], ov)
+        check("test value Bool(true)", (_strip(r), r[2][0]) if isinstance(r, tuple) and len(r) > 2 and r[2] else r, ("Bool", True), fn)
+        r = run_(fn["path"], [("variant", TV + "String", ["abc"])], ov)
+        check("test value String(abc)", (_strip(r), r[2][0]) if isinstance(r, tuple) and len(r) > 2 and r[2] else r, ("String", "abc"), fn)
+        r = run_(fn["path"], [("variant", TV + "Flag", [["A", "C"]])], {**ov, "to_vec": lambda a: a[0]})
+        check("test value Flag([A, C])", (_strip(r), r[2][0]) if isinstance(r, tuple) and len(r) > 2 and r[2] else r, ("Flag", ["A", "C"]), fn)
+
+    def test_case():
+        fn = F.fn(IR + "container::IrTestCase::from_test_case")
+        if fn is None:
+            ctx.violate("ir.witness", "anchor|from_test_case", "IrTestCase::from_test_case not found (anchor disappeared)")
+            return
+        TC = "crate::parser::types::test_case::"
+        ov = {"ToString::to_string": lambda a: a[0], "::IrTags::from_tags": lambda a: ("tags",), "::IrTags::from_member_tags": lambda a: ("tags",),
+              "::IrTestValue::from_test_value": lambda a: ("val", a[0]), "to_vec": lambda a: a[0]}
+        mem = [("struct", TC + "TestCaseMember", {"variable_name": n, "value": ("v", n), "tags": None}) for n in ("first", "second", "third")]
+        tc = ("struct", TC + "TestCase", {"subject": "CMSG_X", "members": mem, "raw_bytes": [1, 2, 3, 250], "tags": None,
+                                          "file_info": ("struct", "crate::file_info::FileInfo", {"file_name": "t.wowm", "path": None, "start_position": 5, "end_position": 9})})
+        f = fields(run_(fn["path"], [tc], ov))
+        got = None
+        if f:
+            fi = fields(f["file_info"])
+            got = (f["subject"], [(fields(m)["variable_name"], fields(m)["value"]) for m in f["members"]], f["raw_bytes"], (fi["file_name"], fi["start_position"], fi["end_position"]) if fi else None)
+        check("test CMSG_X {first, second, third} bytes [1, 2, 3, 250] at t.wowm 5..9", got,
+              ("CMSG_X", [(n, ("val", ("v", n))) for n in ("first", "second", "third")], [1, 2, 3, 250], ("t.wowm", 5, 9)), fn)
+
+    def members():
+        # --- member order and kinds ----------------------------------------------------------------------------------------------
+        fn = F.fn(IR + "container::IrOptionalStatement::from_optional")
+        SM = "crate::parser::types::struct_member::StructMember::"
+        if fn is None:
+            ctx.violate("ir.witness", "anchor|from_optional", "IrOptionalStatement::from_optional not found (anchor disappeared)")
+            return
+        ov = {"::IrStructMemberDefinition::from_definition": lambda a: ("def", a[0]), "::IrIfStatement::from_statement": lambda a: ("if", a[0]),
+              "rust_object_to_prepared_objects": lambda a: [], "ToString::to_string": lambda a: a[0], "::members": None}
+        ov.pop("::members")
+        mems = [("variant", SM + "Definition", ["a"]), ("variant", SM + "IfStatement", ["i1"]), ("variant", SM + "Definition", ["b"]), ("variant", SM + "IfStatement", ["i2"]), ("variant", SM + "Definition", ["c"])]
+        o = ("struct", "crate::parser::types::optional::OptionalStatement", {"name": "tail", "members": mems})
+        ro = ("struct", "crate::rust_printer::rust_view::rust_optional::RustOptional", {})
+        f = fields(run_(fn["path"], [o, ro], ov))
+        got = None
+        if f:
+            got = (f["name"], [(_strip(m), m[2][0] if len(m) > 2 and m[2] else None) for m in f["members"]])
+        check("optional tail { a; if..; b; if..; c; } (member order and kinds)", got,
+              ("tail", [("Definition", ("def", "a")), ("IfStatement", ("if", "i1")), ("Definition", ("def", "b")), ("IfStatement", ("if", "i2")), ("Definition", ("def", "c"))]), fn)
+
+    for sec in (versions, sizes, file_info, container_type, enumerator, if_statement, definition, types, arrays, test_values, test_case, members):
         section(sec)
-    ctx.rule("ir.witness", n, floor=25, note="IR conversion functions interpreted on distinguishing instances (version components incl. literal zeros, min/max sizes, line numbers, container kinds with opcodes, enumerator value and spelling, values of if / else-if / else arms)")
+    ctx.rule("ir.witness", n, floor=55, note="IR conversion functions interpreted on distinguishing instances (version components incl. literal zeros, min/max sizes, line numbers, container kinds with opcodes, enumerator value and spelling, values of if / else-if / else arms, every attribute of a member definition, enum / flag upcasts and integer widths, array element / size kinds with count or size-field name and compression, test-vector value kinds, test case subject / member order / bytes / lines, member order of optional tails)")
 
 
 def run(ctx):
